@@ -17,3 +17,4 @@ open LhasaV.Props.C01
 #print axioms lh7_decode_serialise
 #print axioms lhx_decode_serialise
 #print axioms lk7_decode_serialise
+#print axioms lhnew_init_matches_source
